@@ -343,9 +343,65 @@ def replacer_sites(ctx):
                 if ctx.roles.is_main_place(p) and p.root != 0:
                     # plain overwrite of MAIN of an existing S (not the construction of a new S in the return place / a local)
                     if p.root >= 1 and p.root <= b.arg_count:
+                        if _swap_of_empty_tables(ctx, b, loc, st):
+                            ctx.memo("empty_swaps", list).append((b, loc))
+                            continue      # an empty, unsplit map trades its empty table for another empty one: nothing is held, lost or owed
                         out.append((b, loc, None))
         return out
     return ctx.memo("replacer_sites", build)
+
+
+def _edge_dominates(body, e, bb):
+    return (e[1] == bb or e[1] in body.dom().get(bb, set())) and body.preds(e[1], True) == [e[0]]
+
+
+def _swap_of_empty_tables(ctx, b, loc, st):
+    """`self.MAIN = t` under the guard `t.len() == 0 && self.MAIN.len() == 0 && self.LEFT.is_none()` (any order, any spelling of the tests)"""
+    rv = st["rv"]
+    if rv["k"] != "use" or rv["op"]["k"] != "move" or rv["op"]["place"]["proj"]:
+        return False
+    newl = {rv["op"]["place"]["local"]}
+    for _ in range(6):
+        for l in list(newl):
+            d0 = b.unique_def(l)
+            if d0 is not None and d0[1] == "assign" and d0[2]["rv"]["k"] == "use" and d0[2]["rv"]["op"]["k"] == "move" and not d0[2]["rv"]["op"]["place"]["proj"]:
+                newl.add(d0[2]["rv"]["op"]["place"]["local"])
+    main_empty = new_empty = False
+    for bb in b.reachable():
+        t = b.term(bb)
+        if t["k"] != "switch":
+            continue
+        d = b.source_def(t["discr"])
+        if d is None:
+            continue
+        who, empty_if_true = None, None
+        if d[1] == "assign" and d[2]["rv"]["k"] == "binop" and d[2]["rv"]["op"] in ("Eq", "Ne"):
+            r_ = d[2]["rv"]
+            for x, y in ((r_["a"], r_["b"]), (r_["b"], r_["a"])):
+                if b.op_const(y) == 0:
+                    sd = b.source_def(x)
+                    if sd is not None and sd[1] == "call":
+                        c = ctx.call_at(b, sd[0].bb)
+                        if c.tname == HBT + "len":
+                            who, empty_if_true = c.arg_path(0), (r_["op"] == "Eq")
+        elif d[1] == "call":
+            c = ctx.call_at(b, d[0].bb)
+            if c.tname == HBT + "is_empty":
+                who, empty_if_true = c.arg_path(0), True
+        if who is None:
+            continue
+        edge_true = (bb, t["otherwise"])
+        edge_false = [(bb, tb) for v, tb in t["targets"] if v == 0 and tb != t["otherwise"]]
+        e = edge_true if empty_if_true else (edge_false[0] if edge_false else None)
+        if e is None or not _edge_dominates(b, e, loc.bb):
+            continue
+        if ctx.role(b, who) == MAIN and is_self_s(ctx, b, ctx.roles.s_prefix(ctx.resolve(b, who)[1]) or who):
+            main_empty = True
+        elif who.strip_refs().root in newl and not who.fields():
+            new_empty = True
+    if not (main_empty and new_empty):
+        return False
+    return any(v == N and _edge_dominates(b, e, loc.bb) for e, v in left_test_edges(ctx, b, ignore_debug=False).items())
 
 
 def installs_left(ctx):
